@@ -1,9 +1,13 @@
 /-
 C10 — streaming calls always progress, and a completed flush is decodable.
-(c) the decoder's input pacing: fed exactly what it asks for, it asks for exactly the frame, never beyond it.
+(c) the decoder's input pacing: fed exactly what it asks for, it asks for exactly the frame, never beyond it
+    (`hints_sum_eq_frameSize` on the pacing specification; `dstream_hint_exact`, `dstream_hint_never_beyond_frame` on the model of the real function).
 -/
 import ZstdVerif.Model.Stream
 import ZstdVerif.Lemmas.DStreamRT
+import ZstdVerif.Lemmas.DStreamHint
+import ZstdVerif.Lemmas.DStreamRing
+import ZstdVerif.Lemmas.DStreamTotal
 import ZstdVerif.Lemmas.CStreamRT
 namespace ZstdVerif.Props.C10
 open ZstdVerif.Stream
@@ -90,6 +94,121 @@ open DStream in
 theorem dstream_calls_bounded (all : List FrameD) (hok : AllOk all) (io : List (Nat × Nat)) (s : State) (hinv : Inv all s)
     (hf : Feasible all s io) (hoff : Offered io) : io.length ≤ slack all s :=
   DStream.calls_bounded all hok io s hinv hf hoff
+
+
+open DStream in
+/-- **dstream_progress_output**: a call made while decoded output is pending (stage zdss_flush, `outStart < outEnd`) and with at least one byte
+of output room hands over at least one byte unless it reports an error - even when NO input is offered (`inAvail = 0`): pending output never
+waits for more input.  (With `outCap = 0` a call may report consumed = 0 although it took a byte: the last byte of a frame is withheld,
+`hostageByte`, until the output is flushed - hence `0 < outCap`.) -/
+theorem dstream_progress_output (all : List FrameD) (hok : AllOk all) (s : State) (hinv : Inv all s) (inAvail outCap : Nat)
+    (hlim : s.totalIn + inAvail ≤ sizeAll all) (hss : s.ss = .flush) (hpend : s.outStart < s.outEnd) (ho : 0 < outCap)
+    (hne : ∀ e, (step s inAvail outCap).2.ret ≠ .err e) : 0 < (step s inAvail outCap).2.produced :=
+  DStream.progress_output all hok s hinv inAvail outCap hlim hss hpend ho hne
+
+open DStream in
+/-- non-vacuity: on the 35-byte stream `[exFrame]`, a first call with 3 bytes of output room leaves 2 bytes of the first block pending in
+zdss_flush; the next call, offered no input at all, produces them -/
+example : (step (step (State.start [exFrame]) 35 3).1 0 10).2.produced = 2 := by decide +kernel
+
+open DStream in
+/-- **dstream_no_internal_error**: on a well-formed stream a call never reports CORRUPTION (stage zdss_load: the stage's input would not fit the
+input buffer - `inBuff` is sized max(blockSizeMax, 4) and every stage of a well-formed frame fits it) nor GENERIC (the model's loop fuel
+`2 * inAvail + 4` is never exhausted: every turn of the loop takes input, or is a flush turn followed by one that does); the invariant
+`BufInv` it needs holds at the start (`buf_start`) and is kept by every call, hence after every feasible history (`buf_reachable`) -/
+theorem dstream_no_internal_error (all : List FrameD) (hok : AllOk all) (s : State) (hinv : Inv all s) (bi : BufInv s)
+    (inAvail outCap : Nat) (hlim : s.totalIn + inAvail ≤ sizeAll all) :
+    BufInv (step s inAvail outCap).1 ∧ (step s inAvail outCap).2.ret ≠ .err .corruption ∧
+    (step s inAvail outCap).2.ret ≠ .err .generic :=
+  DStream.step_total all hok s hinv bi inAvail outCap hlim
+
+open DStream in
+/-- **dstream_no_error**: on a well-formed stream whose windows the decoder accepts, a call that is offered at least one byte of input (within the
+stream) and one byte of output room reports NO error at all: the "unless it reports an error" clauses of `dstream_progress`, `dstream_no_livelock`
+are vacuous for such calls (the no-forward-progress errors need an idle call, the window refusal a window beyond the limit) -/
+theorem dstream_no_error (all : List FrameD) (hok : AllOk all) (m : Nat) (hwin : WindowsOk all m) (s : State) (hinv : Inv all s)
+    (bi : BufInv s) (hmw : s.maxWindowSize = m) (inAvail outCap : Nat) (hlim : s.totalIn + inAvail ≤ sizeAll all)
+    (hi : 0 < inAvail) (ho : 0 < outCap) : ∀ e, (step s inAvail outCap).2.ret ≠ .err e :=
+  DStream.step_no_error all hok m hwin s hinv bi hmw inAvail outCap hlim hi ho
+
+open DStream in
+/-- **dstream_calls_bounded_offered**: hence, from a fresh context, ANY session whose calls each offer input (within the stream) and output room
+is at most `compressed size + content size` calls long - no hypothesis on the calls' outcomes -/
+theorem dstream_calls_bounded_offered (all : List FrameD) (hok : AllOk all) (hwin : WindowsOk all ZSTD_MAXWINDOWSIZE_DEFAULT)
+    (io : List (Nat × Nat)) (hw : Within all (State.start all) io) (hoff : Offered io) :
+    io.length ≤ sizeAll all + regenAll all :=
+  DStream.calls_bounded_offered all hok hwin io hw hoff
+
+open DStream in
+/-- **dstream_progress_output_total**: `dstream_progress_output` without its "unless it reports an error" clause - in a state reached by a
+feasible history (`Inv`, `BufInv`), a call made while output is pending, with output room, hands over at least one byte AND reports no error -/
+theorem dstream_progress_output_total (all : List FrameD) (hok : AllOk all) (s : State) (hinv : Inv all s) (bi : BufInv s)
+    (inAvail outCap : Nat) (hlim : s.totalIn + inAvail ≤ sizeAll all) (hss : s.ss = .flush) (hpend : s.outStart < s.outEnd)
+    (ho : 0 < outCap) : 0 < (step s inAvail outCap).2.produced ∧ ∀ e, (step s inAvail outCap).2.ret ≠ .err e :=
+  DStream.progress_output_total all hok s hinv bi inAvail outCap hlim hss hpend ho
+
+open DStream in
+/-- non-vacuity of `dstream_progress_output_total`: its hypotheses hold in the state `[exFrame]` is left in by a first call with 3 bytes of room -/
+example : 0 < (step (after (State.start [exFrame]) [(35, 3)]) 0 10).2.produced ∧
+    ∀ e, (step (after (State.start [exFrame]) [(35, 3)]) 0 10).2.ret ≠ .err e := by
+  have hok : AllOk [exFrame] := fun f hf => by
+    have : f = exFrame := by simpa using hf
+    subst this; decide
+  have hf : Feasible [exFrame] (State.start [exFrame]) [(35, 3)] :=
+    ⟨by decide, (fun e h => by rw [show (step (State.start [exFrame]) 35 3).2.ret = .hint 3 by decide +kernel] at h; cases h), trivial⟩
+  obtain ⟨hi, hb⟩ := buf_reachable [exFrame] hok [(35, 3)] hf
+  exact dstream_progress_output_total [exFrame] hok _ hi hb 0 10 (by decide +kernel) (by decide +kernel) (by decide +kernel) (by decide)
+
+open DStream in
+/-- **dstream_hint_exact** - (c) for the model of the real function: the return value of `ZSTD_decompressStream` is a truthful input-size hint.
+On a well-formed single frame `f` whose window the decoder accepts (`windowSize ≤ ZSTD_MAXWINDOWSIZE_DEFAULT` = 2^27 + 1; a larger window
+makes the second call fail with `frameParameter_windowTooLarge`, see `bigWindowFrame` in Lemmas/DStreamHint.lean), every call having room
+for a whole block, the run that offers each call exactly the number of bytes the previous call returned (5 = `ZSTD_startingInputLength` at
+the start) returns exactly the request sequence `Stream.hints f.shape` (after its leading 5), closed by the 0 that reports the frame end -/
+theorem dstream_hint_exact (f : FrameD) (hok : f.ok = true) (room : Nat) (hroom : f.blockSizeMax ≤ room)
+    (hwin : f.windowSize ≤ ZSTD_MAXWINDOWSIZE_DEFAULT) :
+    hintedRets (2 * f.blocks.length + 8) (State.start [f]) 5 room = (Stream.hints f.shape).tail ++ [0] :=
+  DStream.hint_exact f hok room hroom hwin
+
+open DStream in
+example : hintedRets (2 * exFrame.blocks.length + 8) (State.start [exFrame]) 5 1024 = [4, 8, 13, 1, 4, 0] := by
+  rw [dstream_hint_exact exFrame (by decide) 1024 (by decide) (by decide)]
+  decide
+
+open DStream in
+/-- **dstream_hint_never_beyond_frame**: ... and therefore the function never asks for bytes beyond the end of the current frame: the sizes
+offered in such a run (5, then every return value), added up over any number of calls, stay within the compressed size of the frame, and
+over the whole run they add up to exactly the frame -/
+theorem dstream_hint_never_beyond_frame (f : FrameD) (hok : f.ok = true) (room : Nat) (hroom : f.blockSizeMax ≤ room)
+    (hwin : f.windowSize ≤ ZSTD_MAXWINDOWSIZE_DEFAULT) :
+    (∀ k, ((5 :: hintedRets (2 * f.blocks.length + 8) (State.start [f]) 5 room).take k).sum ≤ DStream.frameSize f) ∧
+    (5 :: hintedRets (2 * f.blocks.length + 8) (State.start [f]) 5 room).sum = DStream.frameSize f := by
+  obtain ⟨h1, h2, h3⟩ := shape_facts f hok
+  have hs := hints_sum_eq_frameSize f.shape h1 h2 h3
+  rw [shape_frameSize f hok] at hs
+  have he : 5 :: hintedRets (2 * f.blocks.length + 8) (State.start [f]) 5 room = hints f.shape ++ [0] := by
+    rw [dstream_hint_exact f hok room hroom hwin, ← List.cons_append, ← hints_head]
+  rw [he]
+  have hsum : (hints f.shape ++ [0]).sum = DStream.frameSize f := by simp [hs]
+  exact ⟨fun k => hsum ▸ take_sum_le _ k, hsum⟩
+
+
+open DStream in
+/-- **dstream_ring_keeps_window**: the output ring of the buffered decoder (stage zdss_flush: "restart the ring when the next block would not
+fit").  After ANY feasible history of calls on a well-formed stream, whenever the decoder waits between two calls (zdss_read) for a block
+header, a block body or the checksum: (1) there is room for a whole block behind `outStart`, or the ring holds the whole declared content
+(and is then never restarted); (2) if the ring has been restarted in this frame, the restart happened at `segEnd ≥ blockSizeMax + windowSize`,
+so the block about to be written at `[outStart, outStart + blockSizeMax)` ends before the history the window still reaches from before the
+restart, `[segEnd - (windowSize - outStart), segEnd)`.  (`DStream.ring_step`: every call keeps the underlying invariant `RingInv`.) -/
+theorem dstream_ring_keeps_window (all : List FrameD) (hok : AllOk all) (io : List (Nat × Nat)) (hf : Feasible all (State.start all) io)
+    (hss : (after (State.start all) io).ss = .read)
+    (hst : (after (State.start all) io).d.stage = .decodeBlockHeader ∨ (after (State.start all) io).d.stage = .decompressBlock ∨
+      (after (State.start all) io).d.stage = .decompressLastBlock ∨ (after (State.start all) io).d.stage = .checkChecksum) :
+    ((after (State.start all) io).outStart + (after (State.start all) io).d.blockSizeMax ≤ (after (State.start all) io).outBuffSize ∨
+      ∃ n, (after (State.start all) io).d.fcs = some n ∧ n ≤ (after (State.start all) io).outBuffSize) ∧
+    ((after (State.start all) io).segEnd ≠ 0 →
+      (after (State.start all) io).d.blockSizeMax + (after (State.start all) io).d.windowSize ≤ (after (State.start all) io).segEnd) :=
+  DStream.ring_keeps_window all hok io hf hss hst
 
 
 /-! ### (a), (b) compression side: model of ZSTD_compressStream2 (Model/CStream.lean, tied call by call to the real code) -/
